@@ -89,20 +89,23 @@ func c02RunPairs(r *Run, rng *Rng) {
 			WorkloadSpec{Bench: p.bench, Params: p.params, Arch: p.arch, GPUs: []int{1}, Seed: int64(r.Seed)},
 			WorkloadSpec{Bench: p.bench, Params: p.params, Arch: p.arch, Timing: true, GPUType: gt, GPUs: []int{1}, Seed: int64(r.Seed), Knobs: p.knobs})
 	}
-	limit := 60 * time.Second
+	limit := 30 * time.Second
 	if r.Tier == "thorough" {
 		limit = 150 * time.Second
 	}
 	t0 := time.Now()
 	res := RunWorkloads(specs, 12, limit)
 	// a hang after Run() returned is the driver's lost wake-up (property C12): retry those once
-	var again []int
-	for i, x := range res {
-		if x.Fault == "hang" {
-			again = append(again, i)
+	for round := 0; round < 2; round++ {
+		var again []int
+		for i, x := range res {
+			if x.Fault == "hang" {
+				again = append(again, i)
+			}
 		}
-	}
-	if len(again) > 0 {
+		if len(again) == 0 {
+			break
+		}
 		var sp []WorkloadSpec
 		for _, i := range again {
 			sp = append(sp, specs[i])
@@ -110,7 +113,7 @@ func c02RunPairs(r *Run, rng *Rng) {
 		for k, x := range RunWorkloads(sp, 12, limit) {
 			res[again[k]] = x
 		}
-		r.Note("%d runs hit the wall-clock limit and were repeated once", len(again))
+		r.Note("%d runs hit the wall-clock limit and were repeated (round %d)", len(again), round+1)
 	}
 	r.Note("whole-platform pairs: %d runs in %.1fs", len(specs), time.Since(t0).Seconds())
 	for i := 0; i+1 < len(res); i += 2 {
